@@ -438,6 +438,13 @@ def tree_lookup(chk: Check, f: FuncInfo, site: TreeSite, sel: str, key: str, adj
     if not hk["tree"]:
         chk.ob(rule, k + ":index-lookup", True, f.loc(), "helper does not search a tree", 0)
         return
+    kw0 = dict(t[3]) if len(t) > 3 else {}
+    if hk["key"] is None:
+        # the implementation called directly: the key space is the getter it is handed
+        for gk in ("interval_getter", "bounds_getter"):
+            gv = kw0.get(gk)
+            if isinstance(gv, tuple) and gv[0] == "name":
+                hk = dict(hk, key={"_address_interval": "address", "_offset_interval": "offset"}.get(gv[1]))
     args = t[2]
     param = f.param_names()[1]
     want_tree = ("call", ("attr", ("attr", ("self",), site.attr), "get"), ())
@@ -465,7 +472,8 @@ def tree_lookup(chk: Check, f: FuncInfo, site: TreeSite, sel: str, key: str, adj
     else:
         extra = args[2:] if len(args) > 2 else ()
         kw = dict(t[3]) if len(t) > 3 else {}
-        chk.ob(rule, k + ":no-adjustment", not extra and "adjustment" not in kw, f.loc(),
+        zero = kw.get("adjustment") in (("const", 0), ("num", 0), ("int", 0), 0)
+        chk.ob(rule, k + ":no-adjustment", not extra and ("adjustment" not in kw or zero), f.loc(),
                "%s must not shift its query" % k, 1)
 
 
